@@ -4,13 +4,14 @@
 // driver reads and what a replay re-runs) and the rendering into link-layer frames.
 //
 // op text (space separated words):
-//   cap <fmt> <links> C <ipA> <portA> <ipB> <portB> <isnA> <isnB> <dataA> <dataB> [C ...] P <pkt>*  [@note]*
-//   <links> = link type, or `l1+l2` (pcapng only: one interface per entry, packet i on interface i mod n)
-//   <data>  = `-` | hex | g<seed>:<len> (bytes of a 64 bit LCG, see genBytes)
-//   <pkt>   = T:<conn>:<a|b>:<seqoff>:<len>:<flags>   a whole TCP segment sent by endpoint A or B of <conn>;
-//                 seqoff is relative to that endpoint's ISN (SYN = 0, first data byte = 1), payload =
-//                 data[seqoff-1 : seqoff-1+len], flags ⊆ "SAFP" or `-`
-//             F:<conn>:<a|b>:<ipid>:<fragoff>:<mf>:<hex>   an IPv4 fragment (IP payload bytes literal)
+//
+//	cap <fmt> <links> C <ipA> <portA> <ipB> <portB> <isnA> <isnB> <dataA> <dataB> [C ...] P <pkt>*  [@note]*
+//	<links> = link type, or `l1+l2` (pcapng only: one interface per entry, packet i on interface i mod n)
+//	<data>  = `-` | hex | g<seed>:<len> (bytes of a 64 bit LCG, see genBytes)
+//	<pkt>   = T:<conn>:<a|b>:<seqoff>:<len>:<flags>   a whole TCP segment sent by endpoint A or B of <conn>;
+//	              seqoff is relative to that endpoint's ISN (SYN = 0, first data byte = 1), payload =
+//	              data[seqoff-1 : seqoff-1+len], flags ⊆ "SAFP" or `-`
+//	          F:<conn>:<a|b>:<ipid>:<fragoff>:<mf>:<hex>   an IPv4 fragment (IP payload bytes literal)
 package main
 
 import (
@@ -66,7 +67,7 @@ func generatedData(seed uint64, n int) dataSpec {
 }
 
 type conn struct {
-	ip   [2][4]byte
+	ip   [2][]byte // 4 or 16 bytes each, both of the same family
 	port [2]uint16
 	isn  [2]uint32
 	data [2]dataSpec
@@ -87,30 +88,70 @@ type pkt struct {
 }
 
 type kase struct {
-	fmtName string
-	links   []string
-	conns   []conn
-	pkts    []pkt
-	notes   []string
+	fmtName  string
+	links    []string
+	conns    []conn
+	pkts     []pkt
+	secs     []int      // pcapng: indices into pkts at which a further section starts (word `N` or `N=<links>` in the op)
+	secLinks [][]string // links of the further sections (nil entry = as the first section)
+	notes    []string
 }
 
-func ipStr(ip [4]byte) string { return fmt.Sprintf("%d.%d.%d.%d", ip[0], ip[1], ip[2], ip[3]) }
+// sections returns the [start, end) packet index ranges of the capture's sections.
+func (k *kase) sections() [][2]int {
+	var out [][2]int
+	start := 0
+	for _, s := range k.secs {
+		out = append(out, [2]int{start, s})
+		start = s
+	}
+	return append(out, [2]int{start, len(k.pkts)})
+}
 
-func parseIP(s string) ([4]byte, error) {
-	var ip [4]byte
+// addresses in the op text: dotted IPv4, or IPv6 as eight colon separated hex groups without compression
+func ipStr(ip []byte) string {
+	if len(ip) == 4 {
+		return fmt.Sprintf("%d.%d.%d.%d", ip[0], ip[1], ip[2], ip[3])
+	}
+	gs := make([]string, 8)
+	for i := range gs {
+		gs[i] = strconv.FormatUint(uint64(ip[2*i])<<8|uint64(ip[2*i+1]), 16)
+	}
+	return strings.Join(gs, ":")
+}
+
+func parseIP(s string) ([]byte, error) {
+	if strings.Contains(s, ":") {
+		p := strings.Split(s, ":")
+		if len(p) != 8 {
+			return nil, fmt.Errorf("ip %q", s)
+		}
+		ip := make([]byte, 16)
+		for i := range p {
+			v, err := strconv.ParseUint(p[i], 16, 16)
+			if err != nil {
+				return nil, fmt.Errorf("ip %q", s)
+			}
+			ip[2*i], ip[2*i+1] = byte(v>>8), byte(v)
+		}
+		return ip, nil
+	}
 	p := strings.Split(s, ".")
 	if len(p) != 4 {
-		return ip, fmt.Errorf("ip %q", s)
+		return nil, fmt.Errorf("ip %q", s)
 	}
+	ip := make([]byte, 4)
 	for i := range p {
 		v, err := strconv.Atoi(p[i])
 		if err != nil || v < 0 || v > 255 {
-			return ip, fmt.Errorf("ip %q", s)
+			return nil, fmt.Errorf("ip %q", s)
 		}
 		ip[i] = byte(v)
 	}
 	return ip, nil
 }
+
+func (c conn) v6() bool { return len(c.ip[0]) == 16 }
 
 func flagStr(f int) string {
 	s := ""
@@ -174,14 +215,37 @@ func (k *kase) opText() string {
 			c.isn[0], c.isn[1], c.data[0].text, c.data[1].text)
 	}
 	sb.WriteString(" P")
-	for _, p := range k.pkts {
+	si := 0
+	for i, p := range k.pkts {
+		for si < len(k.secs) && k.secs[si] == i {
+			sb.WriteString(" " + k.secWord(si))
+			si++
+		}
 		sb.WriteByte(' ')
 		sb.WriteString(p.String())
+	}
+	for ; si < len(k.secs); si++ {
+		sb.WriteString(" " + k.secWord(si))
 	}
 	for _, n := range k.notes {
 		sb.WriteString(" @" + n)
 	}
 	return sb.String()
+}
+
+func (k *kase) secWord(si int) string {
+	if k.secLinks[si] == nil {
+		return "N"
+	}
+	return "N=" + strings.Join(k.secLinks[si], "+")
+}
+
+// linksOf returns the link types of the interfaces of section si (0 = first).
+func (k *kase) linksOf(si int) []string {
+	if si > 0 && k.secLinks[si-1] != nil {
+		return k.secLinks[si-1]
+	}
+	return k.links
 }
 
 func parseKase(op string) (*kase, error) {
@@ -211,6 +275,9 @@ func parseKase(op string) (*kase, error) {
 		if c.ip[1], err = parseIP(ws[i+3]); err != nil {
 			return nil, err
 		}
+		if len(c.ip[0]) != len(c.ip[1]) {
+			return nil, fmt.Errorf("address families differ")
+		}
 		for j, w := range []string{ws[i+2], ws[i+4]} {
 			v, err := strconv.ParseUint(w, 10, 16)
 			if err != nil {
@@ -239,6 +306,23 @@ func parseKase(op string) (*kase, error) {
 	for _, w := range ws[i+1:] {
 		if strings.HasPrefix(w, "@") {
 			k.notes = append(k.notes, w[1:])
+			continue
+		}
+		if w == "N" || strings.HasPrefix(w, "N=") {
+			if !capFmts[k.fmtName].ng {
+				return nil, fmt.Errorf("sections in a pcap file")
+			}
+			var ls []string
+			if w != "N" {
+				ls = strings.Split(w[2:], "+")
+				for _, l := range ls {
+					if _, ok := linkNum[l]; !ok {
+						return nil, fmt.Errorf("link %q", l)
+					}
+				}
+			}
+			k.secs = append(k.secs, len(k.pkts))
+			k.secLinks = append(k.secLinks, ls)
 			continue
 		}
 		f := strings.Split(w, ":")
@@ -282,6 +366,9 @@ func parseKase(op string) (*kase, error) {
 			if err != nil {
 				return nil, err
 			}
+			if k.conns[ci].v6() {
+				return nil, fmt.Errorf("pkt %q: fragment of an IPv6 connection", w)
+			}
 			p.frag, p.ipid, p.foff, p.mf, p.body = true, uint16(id), fo, f[5] == "1", b
 		default:
 			return nil, fmt.Errorf("pkt %q", w)
@@ -307,8 +394,16 @@ func (k *kase) segmentBytes(p pkt) []byte {
 }
 
 // frames renders every packet as a link-layer frame; frame i is on interface i mod len(links).
-func (k *kase) frames() (frames [][]byte, ifaces []int) {
+func (k *kase) frames() (frames [][]byte, ifaces []int, flinks []string) {
 	be := capFmts[k.fmtName].be
+	secOf := make([]int, len(k.pkts))
+	secIdx := make([]int, len(k.pkts))
+	for si, r := range k.sections() {
+		for i := r[0]; i < r[1]; i++ {
+			secOf[i] = r[0]
+			secIdx[i] = si
+		}
+	}
 	for i, p := range k.pkts {
 		c := k.conns[p.conn]
 		var ip []byte
@@ -316,24 +411,43 @@ func (k *kase) frames() (frames [][]byte, ifaces []int) {
 			ip = ipv4Packet(c.ip[p.dir], c.ip[1-p.dir], p.ipid, p.foff, p.mf, p.body)
 		} else {
 			// identification of unfragmented packets: distinct from the generator's fragment ids (< 0x8000)
-			ip = ipv4Packet(c.ip[p.dir], c.ip[1-p.dir], uint16(0x8000+i%0x8000), 0, false, k.segmentBytes(p))
+			if c.v6() {
+				ip = ipv6Packet(c.ip[p.dir], c.ip[1-p.dir], k.segmentBytes(p))
+			} else {
+				ip = ipv4Packet(c.ip[p.dir], c.ip[1-p.dir], uint16(0x8000+i%0x8000), 0, false, k.segmentBytes(p))
+			}
 		}
-		ifc := i % len(k.links)
-		frames = append(frames, linkFrame(k.links[ifc], be, ip, p.dir == 0))
+		ls := k.linksOf(secIdx[i])
+		ifc := (i - secOf[i]) % len(ls)
+		frames = append(frames, linkFrame(ls[ifc], be, ip, p.dir == 0, c.v6()))
 		ifaces = append(ifaces, ifc)
+		flinks = append(flinks, ls[ifc])
 	}
-	return frames, ifaces
+	return frames, ifaces, flinks
 }
 
 func (k *kase) capture() []byte {
+	b, _ := k.captureFacts()
+	return b
+}
+
+// captureFacts also returns, for pcapng, `<SHB length>:<length of the section's last block>` per section.
+func (k *kase) captureFacts() ([]byte, string) {
 	f := capFmts[k.fmtName]
-	frames, ifaces := k.frames()
+	frames, ifaces, _ := k.frames()
 	if f.ng {
-		var ls []uint32
-		for _, l := range k.links {
-			ls = append(ls, linkNum[l])
+		var out []byte
+		var facts []string
+		for si, r := range k.sections() {
+			var ls []uint32
+			for _, l := range k.linksOf(si) {
+				ls = append(ls, linkNum[l])
+			}
+			b, shb, last := ngSection(f, ls, frames[r[0]:r[1]], ifaces[r[0]:r[1]])
+			out = append(out, b...)
+			facts = append(facts, fmt.Sprintf("%d:%d", shb, last))
 		}
-		return writePcapng(f, ls, frames, ifaces)
+		return out, strings.Join(facts, ",")
 	}
-	return writePcap(f, linkNum[k.links[0]], frames)
+	return writePcap(f, linkNum[k.links[0]], frames), "-"
 }
